@@ -9,6 +9,12 @@ integers (Python int / numpy int64 / int32 corners, regions below, across and ab
 cells smaller than 1), always combined with fractional requested coordinates; coordinates are handed over as Python and NumPy
 scalars of float and integer type and ranges as tuple / list / array; the field data is float64, float32, int64, int32,
 complex128 or complex64.  The oracle always works on the exact double values of the same numbers.
+The source is also visited AFTER A HISTORY: read-only uses that look at derived geometry (cells / vertices / to_xarray / coordinate_field / an earlier
+resample, sel, pad, [] / point lookups), then changes in place - the mesh or the very Region object it holds translated / scaled / quarter-turned
+(also through another field holding the same Region), dims / units renamed, subregions replaced, array / validity replaced or overwritten,
+Field.rotate90 in place - in several orders, or the source is itself the library's result of a selection / padding / resampling (then read and moved).
+"The source's value at that same point" always means the source as it is at the time of the call: current corner points, current data; the effect of
+every history step is computed here from its documented meaning and the case is only used when the source really is in that state.
 Bounded: meshes of 1-4 dimensions with at most 8 cells per axis, seeded geometry."""
 import itertools
 import numpy as np
@@ -31,8 +37,8 @@ CLAUSES = {
     "C07.pad_mesh": "padding adds exactly the requested number of cells per side: n+lo+hi, pmin-lo*cell, pmax+hi*cell (16 ulp), cell unchanged, untouched axes identical",
     "C07.pad_values": "padded field: source cells keep value and validity at their physical position; cells outside follow the padding mode "
                       "(constant, edge, wrap, symmetric, reflect, maximum, minimum; own per-axis reimplementation), for data and validity",
-    "C07.resample": "resampling keeps the region (==) and returns the requested n; every new cell takes value and validity of the nearest source cell "
-                    "(either neighbour at an exact tie), both from the same cell",
+    "C07.resample": "resampling keeps the region (==, the source's current one) and returns the requested n; every new cell takes value and validity of the nearest "
+                    "source cell of the source's current geometry and data (either neighbour at an exact tie), both from the same cell",
     "C07.same_point": "own lookup: every cell centre of the result (computed from the result's region and n) lies at a cell centre of the source lattice "
                       "(fraction 1/2 to rounding) and the result holds the source's value and validity of the cell containing that point",
     "C07.metadata": "results keep nvdim, vdims, unit and vdim_mapping; dims/units follow the kept axes",
@@ -46,6 +52,12 @@ RULE = ("seeded fields on 1-4-d anisotropic meshes (scales 1e-9, 1e-3, 1 with su
         "control; region below / across / above zero / mixed per axis; per axis integral cell 1..3 or edge/n fractional from 1/n to ~3; scalar corners in 1-d; "
         "integer subregion corners where integral), coordinates passed as float / np.float64 / np.float32 / int / np.int64 and ranges as tuple / list / array, "
         "aligned boxes with integer corners. Third block: float32 / int64 / int32 / complex128 / complex64 field data on double and integer geometry. "
+        "Fourth block (histories): per dimension and per kind of in-place change (Mesh.translate / scale / rotate90, the same on the Region object and its "
+        "subregion objects, translate through a resampled field sharing the Region, Field.rotate90, renaming dims / units, replacing subregions, replacing data "
+        "by setter / update_field_values / in-place write, source = result of sel / pad / resample) a seeded history read -> change [-> read -> change ...] in five "
+        "orders, reads = all of cells, vertices, to_xarray, coordinate_field, resample, sel, pad, [], point lookup (or one of them), vectors / factors / reference "
+        "points as tuple / list / array / ints, double and integer geometry, all field dtypes; then each of sel plane, sel range, [name] / [region] / "
+        "region2slices, pad, resample (also resample a second time) with the same clauses and oracles on the source's CURRENT geometry and data. "
         "non-trivial = field with more than one cell; distinct by (kind, params)")
 ASSUMPTIONS = [
     "bounded: 1-4 dimensions, <= 8 cells per axis, seeded geometry; subregion layouts of up to 3 index boxes",
@@ -55,6 +67,14 @@ ASSUMPTIONS = [
     "a coordinate within 8 ulp (of the coordinate scale) of a cell face may be attributed to either neighbouring cell",
     "integer corner points are small (|p| <= ~40) so that they and all derived coordinates are exact doubles for the oracle; "
     "a coordinate handed over as np.float32 means the double value of that float32 number (only used when that value lies in the region)",
+    "histories: the effect of an in-place translate / scale / rotate90 / rename / subregion or data replacement on the source is taken from its documented "
+    "meaning (p+v; ref-(ref-p)*factor; k quarter turns about the reference, cell counts and units of the two axes exchanged for odd k, data moving with the cells "
+    "for Field.rotate90) and must be confirmed by the source's stored corner points (64 ulp of the operand scale), n, units, dims, subregion corners and data; "
+    "then the stored doubles are the current geometry.  A history that cannot be established (the transformation itself misbehaves: C12/C13) makes the case "
+    "trivial, nothing is claimed.  Mesh.rotate90 in place under a field only with an even number of turns or equal cell counts on the two axes (else field "
+    "data and mesh no longer fit); with subregions only moves that do not cancel the coordinate scale (region and subregions are rounded separately); "
+    "renaming renames region and subregion objects alike; chained sources (sel / pad / resample results) and the shared-Region and Field.rotate90 histories "
+    "on meshes without subregions, padded / resampled sources get distinct values written in place before use",
     "values are compared by numerical equality (==) across dtypes: the property does not say that the result keeps the data type of the source "
     "(the library returns float64 from sel / [] / pad of int and float32 fields); complex 'maximum'/'minimum' padding uses numpy's lexicographic order",
 ]
@@ -183,6 +203,101 @@ def index_boxes(rng, n, count):
     return out
 
 
+# ------------------------------------------------------------------------------------------ histories of the source
+READS = ["cells", "to_xarray", "coordinate_field", "resample", "sel", "pad", "getitem", "call"]
+
+
+def vec_arg(vals, how=None):
+    """a vector argument in the container / number type under test"""
+    if how == "int" and all(float(v).is_integer() for v in vals):
+        return tuple(int(v) for v in vals)
+    if how == "list":
+        return [float(v) for v in vals]
+    if how == "array":
+        return np.array(vals, float)
+    return tuple(float(v) for v in vals)
+
+
+def move_geometry(state, st):
+    """own effect of an in-place move on (pmin, pmax, n, units, index boxes of the subregions), from the documented meaning of translate (p + v),
+    scale (ref - (ref - p) * factor; reference = centre if none) and rotate90 (k quarter turns from ax1 to ax2 about the reference = centre if none; cell
+    counts and units of the two axes change places for odd k).  Also returns the scale of the operands per axis (for rounding budgets)."""
+    pmin, pmax, n, units, boxes = state
+    pmin, pmax, n = np.array(pmin, float), np.array(pmax, float), np.array(n, int)
+    units, boxes = list(units), [[list(lo), list(hi)] for lo, hi in boxes]
+    hs = np.maximum(np.abs(pmin), np.abs(pmax))
+    op = st["op"]
+    if op == "translate":
+        v = np.array(st["v"], float)
+        return (pmin + v, pmax + v, n, units, boxes), np.maximum(hs, np.abs(v))
+    if op == "scale":
+        fac = np.array(st["factor"], float) * np.ones(len(n))
+        ref = 0.5 * (pmin + pmax) if st.get("ref") is None else np.array(st["ref"], float)
+        lo = ref - (ref - pmin) * fac
+        return (lo, lo + (pmax - pmin) * fac, n, units, boxes), np.maximum(hs, np.abs(ref)) * np.maximum(fac, 1.0)
+    if op == "rotate":
+        i, j = st["ax"]
+        k = int(st["k"]) % 4
+        ref = 0.5 * (pmin + pmax) if st.get("ref") is None else np.array(st["ref"], float)
+        h = max(hs[i], hs[j], abs(ref[i]), abs(ref[j]))
+        hs = hs.copy()
+        hs[i] = hs[j] = 2 * h
+        ai, bi, aj, bj = pmin[i] - ref[i], pmax[i] - ref[i], pmin[j] - ref[j], pmax[j] - ref[j]      # relative to the reference point
+        ni, nj = int(n[i]), int(n[j])
+        if k == 1:          # (x, y) -> (-y, x)
+            ri, rj = (-bj, -aj), (ai, bi)
+            n[i], n[j] = nj, ni
+            for lo, hi in boxes:
+                lo[i], hi[i], lo[j], hi[j] = nj - hi[j], nj - lo[j], lo[i], hi[i]
+        elif k == 2:        # (x, y) -> (-x, -y)
+            ri, rj = (-bi, -ai), (-bj, -aj)
+            for lo, hi in boxes:
+                lo[i], hi[i], lo[j], hi[j] = ni - hi[i], ni - lo[i], nj - hi[j], nj - lo[j]
+        elif k == 3:        # (x, y) -> (y, -x)
+            ri, rj = (aj, bj), (-bi, -ai)
+            n[i], n[j] = nj, ni
+            for lo, hi in boxes:
+                lo[i], hi[i], lo[j], hi[j] = lo[j], hi[j], ni - hi[i], ni - lo[i]
+        else:
+            ri, rj = (ai, bi), (aj, bj)
+        if k % 2:
+            units[i], units[j] = units[j], units[i]
+        pmin[i], pmax[i], pmin[j], pmax[j] = ref[i] + ri[0], ref[i] + ri[1], ref[j] + rj[0], ref[j] + rj[1]
+        return (pmin, pmax, n, units, boxes), hs
+    raise KeyError(op)
+
+
+def chain_geometry(state, st):
+    """lattice of the library's own result that becomes the new source: cells klo..khi of an axis / lo, hi more cells on an axis / q times the cells"""
+    pmin, pmax, n, units, boxes = state
+    pmin, pmax, n = np.array(pmin, float), np.array(pmax, float), np.array(n, int)
+    cell = (pmax - pmin) / n
+    op = st["op"]
+    if op == "chain_sel":
+        a, klo, khi = st["axis"], st["klo"], st["khi"]
+        top = pmax[a] if khi + 1 == n[a] else pmin[a] + (khi + 1) * cell[a]
+        pmin[a], pmax[a], n[a] = pmin[a] + klo * cell[a], top, khi + 1 - klo
+    elif op == "chain_pad":
+        a, lo, hi = st["axis"], st["lo"], st["hi"]
+        pmin[a], pmax[a], n[a] = pmin[a] - lo * cell[a], pmax[a] + hi * cell[a], n[a] + lo + hi
+    elif op == "chain_resample":
+        n = n * np.array(st["mult"], int)
+    else:
+        raise KeyError(op)
+    return (pmin, pmax, n, list(units), [])
+
+
+def turn(arr, i, j, k):
+    """cell data after k quarter turns from axis i to axis j: the value of cell (a, b) moves with the cell (k=1: to (n_j-1-b, a))"""
+    k = k % 4
+    if k == 0:
+        return arr.copy()
+    if k == 2:
+        return np.flip(np.flip(arr, axis=i), axis=j).copy()
+    sw = np.swapaxes(arr, i, j)
+    return np.flip(sw, axis=i if k == 1 else j).copy()
+
+
 class Src:
     """the source field rebuilt from params, with own description of its lattice"""
 
@@ -207,13 +322,8 @@ class Src:
         subs = {"r%d" % i: df.Region(p1=self.corner(self.pmin + np.array(lo) * self.cell), p2=self.corner(self.pmin + np.array(hi) * self.cell))
                 for i, (lo, hi) in enumerate(self.boxes)}
         self.mesh = df.Mesh(region=region, n=tuple(int(k) for k in self.n), subregions=subs)
-        lin = np.arange(int(np.prod(self.n))).reshape(tuple(self.n))
         self.fdtype = pr.get("fdtype", "float64")
-        dt = FDTYPES[self.fdtype]
-        base = 1 + self.nvdim * lin[..., None] + np.arange(self.nvdim)
-        if np.issubdtype(dt, np.complexfloating):
-            base = base + 1j * (0.25 - 2.0 * base)        # distinct, non-zero imaginary parts (exact in complex64)
-        self.array = base.astype(dt)
+        self.array = self.unique_values()
         vr = np.random.default_rng(pr.get("vseed", 0))
         self.valid = vr.random(tuple(self.n)) < 0.65
         self.vdims = ["va", "vb", "vc", "vd"][: self.nvdim] if self.nvdim > 1 else None
@@ -222,9 +332,241 @@ class Src:
             kw["vdims"] = self.vdims
             kw["vdim_mapping"] = {v: (self.dims[i] if i < self.ndim and i != 1 else None) for i, v in enumerate(self.vdims)}
         if self.fdtype != "float64":
-            kw["dtype"] = dt
+            kw["dtype"] = FDTYPES[self.fdtype]
         self.field = df.Field(self.mesh, nvdim=self.nvdim, value=self.array.copy(), valid=self.valid.copy(), unit="A/m", **kw)
         self.vdim_mapping = dict(self.field.vdim_mapping)
+        # ---- history of the source before the operation under test (reads of derived geometry, in-place moves, in-place updates, chaining)
+        self.hist_ok, self.hist_note = True, None
+        for st in pr.get("hist") or []:
+            try:
+                self.step(st)
+            except Exception as e:                      # a history step that cannot be carried out is not a statement about C07
+                self.hist_ok, self.hist_note = False, "%s: %r" % (st.get("op"), e)
+            if not self.hist_ok:
+                break
+
+    # ------------------------------------------------------------------ history steps
+    def warm(self, what):
+        """read-only uses of the source that look at derived geometry (none of them may change what the source is)"""
+        f, m = self.field, self.field.mesh
+        reg, nd = m.region, self.ndim
+
+        def quiet(fn):
+            try:
+                return fn()
+            except Exception:       # (the operations themselves are judged elsewhere; here they only have to have been used)
+                return None
+        for w in (READS if what == "all" else [what]):
+            if w == "cells":
+                quiet(lambda: (m.cells, m.vertices, m.cell, m.dV, len(m), reg.edges, reg.center, reg.centre, reg.volume, reg.pmin, reg.pmax,
+                               list(m.indices)[:2], list(m)[:2], m == m, reg == reg, m.allclose(m)))
+                quiet(lambda: [(sr.edges, sr.center, sr in reg) for sr in m.subregions.values()])
+            elif w == "to_xarray":
+                quiet(lambda: f.to_xarray())
+                quiet(lambda: f.to_xarray(name="again"))
+            elif w == "coordinate_field":
+                quiet(lambda: m.coordinate_field())
+            elif w == "resample":
+                quiet(lambda: f.resample(tuple(int(k) for k in m.n)))
+                quiet(lambda: f.resample(tuple(int(min(8, k + 1)) for k in m.n)))
+            elif w == "sel":
+                d0, d1 = reg.dims[0], reg.dims[-1]
+                c = m.cells
+                quiet(lambda: f.sel(d0))
+                quiet(lambda: m.sel(d1))
+                quiet(lambda: f.sel(**{d1: float(c[-1][0])}))
+                quiet(lambda: f.sel(**{d0: (float(c[0][0]), float(c[0][-1]))}))
+                quiet(lambda: m.sel(**{d1: (float(c[-1][-1]), float(c[-1][-1]))}))
+            elif w == "pad":
+                quiet(lambda: f.pad({reg.dims[0]: (1, 2)}, mode="edge"))
+                quiet(lambda: m.pad({reg.dims[-1]: (2, 0)}))
+            elif w == "getitem":
+                for name, sr in list(m.subregions.items()):
+                    quiet(lambda: f[name])
+                    quiet(lambda: m[name])
+                    quiet(lambda: m.region2slices(sr))
+                e = np.asarray(reg.edges, float)
+                box = quiet(lambda: df.Region(p1=tuple(np.asarray(reg.pmin, float) + 0.25 * e), p2=tuple(np.asarray(reg.pmin, float) + 0.8 * e)))
+                if box is not None:
+                    quiet(lambda: f[box])
+                    quiet(lambda: m[box])
+                    quiet(lambda: m.region2slices(m[box].region))
+            elif w == "call":
+                quiet(lambda: f(reg.center))
+                quiet(lambda: f(m.index2point(tuple([0] * nd))))
+                quiet(lambda: m.point2index(reg.center))
+                quiet(lambda: m.index2point(tuple(int(k) - 1 for k in m.n)))
+                quiet(lambda: f.mean())
+
+    def adopt(self, state, hs):
+        """own effect of a move (state = pmin, pmax, n, units, boxes computed from the documented meaning) against what the source now holds: when
+        they agree (64 ulp of the operand scale hs; transformations themselves are not C07's subject) the doubles the source holds are the current geometry"""
+        pmin, pmax, n, units, boxes = state
+        m = self.field.mesh
+        lp, lq = np.array(m.region.pmin, float), np.array(m.region.pmax, float)
+        ok = (np.array_equal(m.n, n) and ulp_close(lp, pmin, 64, hs) and ulp_close(lq, pmax, 64, hs) and bool(np.all(lq > lp))
+              and tuple(m.region.units) == tuple(units) and tuple(m.region.dims) == tuple(self.dims) and len(m.subregions) == len(boxes))
+        cell = (lq - lp) / np.array(n)
+        for i, (lo, hi) in enumerate(boxes if ok else []):
+            sr = m.subregions.get("r%d" % i)
+            ok = ok and sr is not None and ulp_close(sr.pmin, lp + np.array(lo) * cell, 64, hs) and ulp_close(sr.pmax, lp + np.array(hi) * cell, 64, hs)
+        if not ok:
+            self.hist_ok, self.hist_note = False, "the source after the history step is not what the step documents"
+            return
+        self.pmin, self.pmax, self.n, self.units, self.boxes = lp, lq, np.array(n, int), tuple(units), [[list(lo), list(hi)] for lo, hi in boxes]
+        self.cell = cell
+        self.scale = np.maximum(np.abs(lp), np.abs(lq))
+        self.mesh = m
+
+    def data_is(self, array, valid):
+        f = self.field
+        if not (f.array.shape == array.shape and np.array_equal(f.array, array) and np.array_equal(f.valid, valid)):
+            self.hist_ok, self.hist_note = False, "the source's data after the history step are not what the step documents"
+            return
+        self.array, self.valid = array, valid
+
+    def revalue(self):
+        """the new source (a result with repeated values) gets distinct values per cell again, written into its array in place"""
+        if self.hist_ok:
+            arr = self.unique_values()
+            self.field.array[...] = arr
+            self.data_is(arr, self.valid)
+
+    def step(self, st):
+        op = st["op"]
+        f, m = self.field, self.field.mesh
+        reg = m.region
+        state = (self.pmin, self.pmax, self.n, self.units, self.boxes)
+        if op == "read":
+            self.warm(st["what"])
+        elif op in ("mesh_translate", "region_translate", "alias_translate"):
+            new, hs = move_geometry(state, dict(st, op="translate"))
+            v = vec_arg(st["v"], st.get("as"))
+            if op == "mesh_translate":
+                m.translate(v, inplace=True)
+            elif op == "region_translate":              # through the Region object itself (and the subregion objects, as Mesh.translate would)
+                reg.translate(v, inplace=True)
+                for sr in m.subregions.values():
+                    sr.translate(v, inplace=True)
+            else:                                       # through another field that holds the same Region object (resample keeps the region)
+                g = f.resample(tuple(int(k) for k in st["n"]))
+                if g.mesh.region is not reg:
+                    g.mesh.translate(v, inplace=True)   # (no alias: the move does not concern the source)
+                    new = state
+                else:
+                    g.mesh.translate(v, inplace=True)
+            self.adopt(new, hs)
+        elif op in ("mesh_scale", "region_scale"):
+            new, hs = move_geometry(state, dict(st, op="scale"))
+            fac = vec_arg(np.atleast_1d(st["factor"]), st.get("as"))
+            fac = fac[0] if np.ndim(st["factor"]) == 0 else fac
+            ref = None if st.get("ref") is None else vec_arg(st["ref"], st.get("as"))
+            if op == "mesh_scale":
+                m.scale(fac, reference_point=ref, inplace=True)
+            else:
+                sref = reg.center if ref is None else ref
+                reg.scale(fac, reference_point=ref, inplace=True)
+                for sr in m.subregions.values():
+                    sr.scale(fac, reference_point=sref, inplace=True)
+            self.adopt(new, hs)
+        elif op in ("mesh_rotate90", "region_rotate90", "field_rotate90"):
+            new, hs = move_geometry(state, dict(st, op="rotate"))
+            i, j = st["ax"]
+            ref = None if st.get("ref") is None else vec_arg(st["ref"], st.get("as"))
+            kw = dict(ax1=self.dims[i], ax2=self.dims[j], k=int(st["k"]), reference_point=ref, inplace=True)
+            if op == "mesh_rotate90":
+                m.rotate90(**kw)
+            elif op == "region_rotate90":
+                kw["reference_point"] = tuple(reg.centre) if ref is None else ref
+                reg.rotate90(**kw)
+                for sr in m.subregions.values():
+                    sr.rotate90(**kw)
+            else:
+                f.rotate90(**kw)
+            self.adopt(new, hs)
+            if op == "field_rotate90" and self.hist_ok:
+                self.data_is(turn(self.array, i, j, int(st["k"])), turn(self.valid, i, j, int(st["k"])))
+        elif op == "rename":
+            dims, units = st.get("dims"), st.get("units")
+            for r_ in [reg] + list(m.subregions.values()):      # the whole mesh is renamed consistently
+                if dims is not None:
+                    r_.dims = list(dims)
+                if units is not None:
+                    r_.units = list(units)
+            if dims is not None:
+                self.dims = tuple(dims)
+            self.adopt((self.pmin, self.pmax, self.n, tuple(units) if units is not None else self.units, self.boxes), self.scale)
+        elif op == "set_subregions":
+            boxes = st["boxes"]
+            m.subregions = {"r%d" % i: df.Region(p1=self.corner(self.pmin + np.array(lo) * self.cell), p2=self.corner(self.pmin + np.array(hi) * self.cell))
+                            for i, (lo, hi) in enumerate(boxes)}
+            self.adopt((self.pmin, self.pmax, self.n, self.units, boxes), self.scale)
+        elif op == "data":
+            arr = (self.array * st["mul"] + st["add"]).astype(self.array.dtype)
+            val = np.random.default_rng(st["vseed"]).random(tuple(self.n)) < 0.6
+            how = st["how"]
+            if how == "setter":
+                f.array = arr.copy()
+                f.valid = val.copy()
+            elif how == "inplace":
+                f.array[...] = arr
+                f.valid[...] = val
+            else:
+                f.update_field_values(arr.copy())
+                f.valid = val.copy()
+            self.data_is(arr, val)
+        elif op == "chain_sel":         # the source becomes the library's own range selection of it (cells klo..khi of axis a, bounds at their centres)
+            a, klo, khi = st["axis"], st["klo"], st["khi"]
+            g = f.sel(**{self.dims[a]: (self.centre(a, klo), self.centre(a, khi))})
+            self.field = g
+            self.adopt(chain_geometry(state, st), self.scale)
+            if self.hist_ok:
+                sl = tuple(slice(klo, khi + 1) if j == a else slice(None) for j in range(self.ndim))
+                self.data_is(self.array[sl], self.valid[sl])
+        elif op == "chain_pad":         # ... the library's own padding of it (mode 'edge' or 'wrap', one axis)
+            a, lo, hi, mode = st["axis"], st["lo"], st["hi"], st["mode"]
+            g = f.pad({self.dims[a]: (lo, hi)}, mode=mode)
+            new = chain_geometry(state, st)
+            self.field = g
+            self.adopt(new, np.maximum(self.scale, np.maximum(np.abs(new[0]), np.abs(new[1]))))
+            if self.hist_ok:
+                k = int(self.array.shape[a])
+                idx = [(q % k) if mode == "wrap" else min(max(q, 0), k - 1) for q in range(-lo, k + hi)]
+                self.data_is(np.take(self.array, idx, axis=a), np.take(self.valid, idx, axis=a))
+                self.revalue()
+        elif op == "chain_resample":    # ... the library's own resampling of it to an integer multiple of its cells (every new cell inside one old cell)
+            mult = [int(q) for q in st["mult"]]
+            g = f.resample(tuple(int(k * q) for k, q in zip(self.n, mult)))
+            self.field = g
+            self.adopt(chain_geometry(state, st), self.scale)
+            if self.hist_ok:
+                arr, val = self.array, self.valid
+                for a, q in enumerate(mult):
+                    arr, val = np.repeat(arr, q, axis=a), np.repeat(val, q, axis=a)
+                self.data_is(arr, val)
+                self.revalue()
+        else:
+            raise KeyError(op)
+
+    def locate(self, first):
+        """source cell (multi-index) holding each given value of the first component (the values are unique per cell); None if some value is not the source's"""
+        flat = np.real(self.array[..., 0]).ravel()
+        order = np.argsort(flat, kind="stable")
+        v = np.real(np.asarray(first)).ravel()
+        pos = np.clip(np.searchsorted(flat[order], v), 0, len(flat) - 1)
+        lin = order[pos]
+        if not np.array_equal(flat[lin], v):
+            return None
+        return tuple(ix.reshape(np.shape(first)) for ix in np.unravel_index(lin, tuple(int(k) for k in self.n)))
+
+    def unique_values(self):
+        """data in which every cell holds its own values: 1 + nvdim * (C-order number of the cell) + component"""
+        dt = FDTYPES[self.fdtype]
+        lin = np.arange(int(np.prod(self.n))).reshape(tuple(int(k) for k in self.n))
+        base = 1 + self.nvdim * lin[..., None] + np.arange(self.nvdim)
+        if np.issubdtype(dt, np.complexfloating):
+            base = base + 1j * (0.25 - 2.0 * base)        # distinct, non-zero imaginary parts (exact in complex64)
+        return base.astype(dt)
 
     def corner(self, vals):
         """corner point in the number type of this geometry: integers (where the values are integral) for integer geometries, doubles otherwise"""
@@ -282,6 +624,161 @@ def meta_ok(src, f, dims, units):
 def same_cell(src, m, axes):
     """result mesh m has the source's cell size on the kept axes (16 ulp of the coordinate scale: cell sizes are corner differences)"""
     return all(ulp_close(m.cell[j], src.cell[a], 16, max(src.scale[a], abs(m.region.pmin[j]), abs(m.region.pmax[j]))) for j, a in enumerate(axes))
+
+
+# ------------------------------------------------------------------------------------------ generation of histories
+GEO_MOVES = ["mesh_translate", "mesh_scale", "mesh_rotate90", "region_translate", "region_scale", "region_rotate90"]
+PRIMARY = GEO_MOVES + ["alias_translate", "field_rotate90", "rename", "set_subregions", "data", "chain_sel", "chain_pad", "chain_resample"]
+NO_SUBS = {"alias_translate", "field_rotate90", "chain_sel", "chain_pad", "chain_resample"}       # histories stated for meshes without subregions only
+ONE_D = {"mesh_rotate90": "mesh_scale", "region_rotate90": "region_translate", "field_rotate90": "data"}
+
+
+def gen_move(rng, state, op, integral, keep_scale, wide):
+    """one in-place move (step dict) and the own state after it.  integral: integer vector / factor / reference point (integer corner points stay integers);
+    keep_scale: the coordinates after the move are not smaller than half the operands' (with subregions: region and subregions are moved separately, each
+    with its own rounding, so a move that cancels the coordinate scale would leave them apart by more than the few ulp the clauses allow)"""
+    pmin, pmax, n = np.array(state[0], float), np.array(state[1], float), np.array(state[2], int)
+    nd = len(n)
+    ext = pmax - pmin
+    how = "int" if integral else ["tuple", "list", "array"][int(rng.integers(3))]
+    kind = "translate" if op.endswith("translate") else "scale" if op.endswith("scale") else "rotate"
+    for attempt in range(40):
+        st = {"op": op, "as": how}
+        if kind == "translate":
+            if integral:
+                v = rng.integers(-6, 7, nd).astype(float)
+            else:
+                v = rng.uniform(-2, 2, nd) * ext * float(rng.choice([1.0, 5.0]))
+                v[rng.random(nd) < 0.2] = 0.0
+            if not np.any(v):
+                v[int(rng.integers(nd))] = 1.0 if integral else float(ext[0])
+            st["v"] = v.tolist()
+        elif kind == "scale":
+            if integral:
+                fac = rng.integers(2, 4, nd).astype(float)
+            elif wide and rng.random() < 0.3:
+                fac = 10.0 ** rng.uniform(-3, 3, nd)
+            else:
+                fac = rng.uniform(0.4, 2.5, nd)
+            st["factor"] = float(fac[0]) if rng.random() < 0.5 else fac.tolist()
+            rk = int(rng.integers(1, 4)) if integral else int(rng.integers(5))
+            if rk == 0:
+                st["ref"] = None
+            elif rk == 1:
+                st["ref"] = pmin.tolist()
+            elif rk == 2:
+                st["ref"] = pmax.tolist()
+            elif rk == 3:
+                r = pmin + ext * rng.uniform(0, 1, nd)
+                st["ref"] = (np.floor(r) if integral else r).tolist()
+            else:
+                st["ref"] = (pmin + ext * rng.uniform(-2, 3, nd)).tolist()
+        else:
+            i, j = (int(q) for q in rng.permutation(nd)[:2])
+            st["ax"] = [i, j]
+            st["k"] = int(rng.choice([1, 2, 3, -1, 5, 6, -2] if n[i] == n[j] else [2, -2, 6]))
+            rk = int(rng.integers(3))
+            if rk == 0 and not integral:
+                st["ref"] = None
+            else:
+                r = pmin + ext * rng.uniform(-0.5 if rk == 2 else 0, 1.5 if rk == 2 else 1, nd)
+                st["ref"] = (np.floor(r) if integral else r).tolist()
+        new, hs = move_geometry(state, dict(st, op=kind))
+        if integral or not keep_scale or bool(np.all(np.maximum(np.abs(new[0]), np.abs(new[1])) >= 0.5 * hs)):
+            return st, new
+    sg = np.where(pmin + pmax >= 0, 1.0, -1.0)          # away from the origin: never cancels
+    st = {"op": op if kind == "translate" else ("mesh_translate" if op.startswith("mesh") else "region_translate"), "as": how,
+          "v": (sg * (np.ceil(ext) if integral else ext)).tolist()}
+    return st, move_geometry(state, dict(st, op="translate"))[0]
+
+
+def gen_history(rng, base, primary, template, integral):
+    """a history (list of steps) for the source described by base: reads of derived geometry and in-place changes in the order given by the template,
+    the primary step being of the requested kind"""
+    p1, p2 = np.array(base["p1"], float), np.array(base["p2"], float)
+    n = list(base["n"])
+    nd = len(n)
+    state = (np.minimum(p1, p2), np.maximum(p1, p2), np.array(n, int), list(UNITS[:nd]), [[list(lo), list(hi)] for lo, hi in base["subs"]])
+    dims = list(base.get("dims") or DIMS[:nd])
+    wide = not base["subs"]
+
+    def read():
+        return {"op": "read", "what": "all" if rng.random() < 0.75 else READS[int(rng.integers(len(READS)))]}
+
+    def data():
+        return {"op": "data", "mul": int(rng.integers(2, 5)), "add": int(rng.integers(1, 9)), "vseed": int(rng.integers(1 << 30)),
+                "how": ["setter", "update", "inplace"][int(rng.integers(5)) % 3]}
+
+    def geo(op=None):
+        nonlocal state
+        if op is None:
+            op = GEO_MOVES[int(rng.integers(len(GEO_MOVES)))]
+        if nd == 1:
+            op = ONE_D.get(op, op)
+        st, state = gen_move(rng, state, op, integral, bool(state[4]), wide)
+        return st
+
+    def prim():
+        nonlocal state, dims
+        pmin, pmax, nn, units, boxes = state
+        if primary in GEO_MOVES:
+            return geo(primary)
+        if primary == "alias_translate":
+            st, state = gen_move(rng, state, "alias_translate", integral, False, wide)
+            st["n"] = [int(q) for q in rng.integers(1, 7, nd)]
+            return st
+        if primary == "field_rotate90":
+            st, state = gen_move(rng, state, "field_rotate90", integral, False, wide)
+            return st
+        if primary == "rename":
+            st = {"op": "rename", "dims": None, "units": None}
+            what = int(rng.integers(3))
+            if what != 1:
+                if nd >= 2 and rng.random() < 0.5:
+                    new = dims[1:] + dims[:1]               # the same names on other axes
+                else:
+                    pool = ["a", "b", "c", "d"] if dims[0] != "a" else ["x", "y", "z", "x3"]
+                    new = pool[:nd]
+                st["dims"], dims = new, new
+            if what != 0:
+                new = ["m", "um", "ms", "K"][:nd] if units[0] != "m" else ["nm", "s", "T", "kg"][:nd][::-1]
+                st["units"] = new
+                state = (pmin, pmax, nn, list(new), boxes)
+            return st
+        if primary == "set_subregions":
+            new = index_boxes(rng, [int(k) for k in nn], int(rng.integers(1, 4)))
+            state = (pmin, pmax, nn, units, new)
+            return {"op": "set_subregions", "boxes": new}
+        if primary == "data":
+            return dict(data(), how=["setter", "update", "inplace", "setter"][template % 4])
+        if primary == "chain_sel":
+            a = int(rng.integers(nd))
+            klo = int(rng.integers(0, nn[a]))
+            st = {"op": "chain_sel", "axis": a, "klo": klo, "khi": int(rng.integers(klo, nn[a]))}
+        elif primary == "chain_pad":
+            a = int(rng.integers(nd))
+            lo = int(rng.integers(0, 3))
+            st = {"op": "chain_pad", "axis": a, "lo": lo, "hi": int(rng.integers(0 if lo else 1, 3)), "mode": ["edge", "wrap"][int(rng.integers(2))]}
+        else:
+            mult = [1] * nd
+            for a in rng.permutation(nd).tolist() * 2:        # more cells on some axes, bounded size
+                if (mult[a] + 1) * nn[a] <= 8 and int(np.prod(nn)) * int(np.prod(mult)) // mult[a] * (mult[a] + 1) <= 300 and rng.random() < 0.8:
+                    mult[a] += 1
+            st = {"op": "chain_resample", "mult": mult}
+        state = chain_geometry(state, st)
+        return st
+
+    chain = primary.startswith("chain")
+    if chain or primary in ("rename", "set_subregions"):        # the changed / derived source is then read and moved (or used as it is)
+        plans = [["R", "P"], ["P", "R", "G"], ["R", "P", "R", "G"], ["R", "P", "G"], ["R", "G", "P", "R"]]
+    elif primary == "data":
+        plans = [["A", "P"], ["A", "G", "A", "P"], ["A", "P", "R"], ["G", "A", "P"], ["A", "P", "G", "R"]]
+    else:
+        plans = [["R", "P"], ["R", "P", "R", "G"], ["G", "R", "P"], ["R", "G", "P"], ["R", "P", "R"]]
+    plan = plans[template % len(plans)]
+    if primary != "data" and rng.random() < 0.35:      # ... and the data of the (moved, read) source are replaced last
+        plan = plan + ["A", "D"]
+    return [read() if c == "R" else {"op": "read", "what": "all"} if c == "A" else geo() if c == "G" else data() if c == "D" else prim() for c in plan]
 
 
 # ------------------------------------------------------------------------------------------ cases
@@ -347,6 +844,40 @@ def cases(ctx):
             for i in range(2 if quick else 7):
                 yield "pad", dict(base, mode=MODES[(cnt + 3 * i) % len(MODES)], seed=int(rng.integers(1 << 30)), nwidths=3 if quick else 6)
             yield "resample", dict(base, seed=int(rng.integers(1 << 30)), ntargets=16 if quick else 64)
+    # ---- histories: the source is read (derived geometry), changed in place (moved / renamed / re-divided / new data) or is itself a result, then used
+    reps_h = len(PRIMARY) * (1 if quick else 4)
+    for ndim in (1, 2, 3, 4):
+        nmax = {1: 8, 2: 6, 3: 4, 4: 3}[ndim]
+        for rep in range(reps_h):
+            cnt += 1
+            primary = PRIMARY[rep % len(PRIMARY)]
+            if ndim == 1:
+                primary = ONE_D.get(primary, primary)
+            template = rep // len(PRIMARY) + ndim + rep % len(PRIMARY)
+            geo = [None, None, "int", None, "npint64", None, "int"][cnt % 7]
+            integral = geo is not None and cnt % 2 == 0
+            with_sub = primary not in NO_SUBS and rep % 3 != 2
+            if geo is None:
+                p1, p2, n = geometry(rng, ndim, with_sub or rep % 2 == 0, nmax)
+            else:
+                p1, p2, n = int_geometry(rng, ndim, nmax, signs[cnt % len(signs)])
+            if primary in ("mesh_rotate90", "region_rotate90", "field_rotate90") and ndim > 1 and rep % 2:
+                n[1] = n[0]                      # equal cell counts on two axes: odd numbers of quarter turns are possible for them
+            base = {"p1": p1, "p2": p2, "n": n, "nvdim": 1 if primary == "field_rotate90" else int(rng.choice([1, 2, 3])), "vseed": int(rng.integers(1 << 30)),
+                    "subs": index_boxes(rng, n, int(rng.integers(1, 4))) if with_sub else []}
+            if geo is not None:
+                base["geo"] = geo
+            if rep % 2:
+                base["dims"] = ["x", "y", "z"][:ndim] if ndim <= 3 else ["x0", "x1", "x2", "x3"]
+            if cnt % 5 == 0:
+                base["fdtype"] = ["float32", "int64", "complex128", "int32", "complex64"][(cnt // 5) % 5]
+            base["hist"] = gen_history(rng, base, primary, template, integral)
+            yield "sel_plane", dict(base, axis=int(rng.integers(ndim)), seed=int(rng.integers(1 << 30)), ctype=CTYPES[cnt % len(CTYPES)])
+            yield "sel_range", dict(base, axis=int(rng.integers(ndim)), seed=int(rng.integers(1 << 30)), ctype=CTYPES[(cnt + 1) % len(CTYPES)], cont=CONTAINERS[cnt % len(CONTAINERS)])
+            yield "getitem", dict(base, seed=int(rng.integers(1 << 30)), nboxes=8 if quick else 24)
+            yield "pad", dict(base, mode=MODES[cnt % len(MODES)], seed=int(rng.integers(1 << 30)), nwidths=2 if quick else 4)
+            yield "resample", dict(base, seed=int(rng.integers(1 << 30)), ntargets=16 if quick else 48)
+            yield "resample", dict(base, hist=base["hist"] + [{"op": "read", "what": "resample"}], seed=int(rng.integers(1 << 30)), ntargets=8 if quick else 24)
     # fixed integer-corner configurations: unit cells on a region across zero; fractional cell 1.25; cells smaller than 1; scalar 1-d corners
     for ct in CTYPES:
         fx = {"p1": [-4, -3, -2], "p2": [4, 3, 2], "n": [8, 6, 4], "nvdim": 1, "vseed": 5, "subs": [], "geo": "int", "dims": ["x", "y", "z"]}
@@ -368,6 +899,9 @@ def cases(ctx):
 # ------------------------------------------------------------------------------------------ checks
 def check(kind, pr, ctx):
     src = Src(pr)
+    if not src.hist_ok:         # the history could not be established as documented (the transformations are other properties' subject): nothing is claimed
+        ctx.trivial()
+        return
     if int(np.prod(src.n)) == 1:
         ctx.trivial()
     ag = Agg(ctx)
@@ -766,12 +1300,11 @@ def check_resample(src, pr, ag):
             fl = np.floor(q)
             tie = np.abs(q - fl - 0.5) <= 16 * np.spacing(src.scale[a]) / src.cell[a] + 16 * np.spacing(np.maximum(np.abs(q), 1.0))
             cand.append([({int(np.clip(fl[j], 0, src.n[a] - 1)), int(np.clip(fl[j] + 1, 0, src.n[a] - 1))} if tie[j] else {int(near[j])}) for j in range(tn[a])])
-        # decode the source cell from the (unique) value
-        lin = np.round((np.real(res.array[..., 0]) - 1.0) / src.nvdim).astype(int)
-        okr = bool(np.all((lin >= 0) & (lin < int(np.prod(src.n)))))
-        bad = None
+        # find the source cell from the (unique) value
+        sidx = src.locate(res.array[..., 0])
+        okr = sidx is not None
+        bad = None if okr else "a value that no source cell holds"
         if okr:
-            sidx = np.unravel_index(lin, tuple(src.n))
             okr = np.array_equal(res.array, src.array[sidx]) and np.array_equal(res.valid, src.valid[sidx])
             if not okr:
                 bad = "value and validity not from one source cell"
